@@ -147,3 +147,42 @@ def contract(method):
 
 
 ITEMS = [(REL, QUAL, contract('round'), 'round'), (REL, QUAL, contract('sample'), 'sample')]
+
+
+def replay(ob):
+    """Replay a refuted synthetic_col obligation through the real GraphicalModel.synthetic_data on a one-attribute model (its single
+    column is generated by one synthetic_col call): expected counts (0.5, 0.3, 0.2, 0) * rows, rows from the counter-model's `total`
+    (default 997); checked: row count, no row in the zero cell, per-cell rounding error < 1 (round mode)."""
+    import re
+    import numpy as np
+    from .. import env
+    env.ensure_repo_importable()
+    if 'synthetic_col' not in ob.name:
+        return None
+    rows = 997
+    for k, v in (ob.model or {}).items():
+        if k == 'total':
+            try:
+                rows = max(1, min(int(str(v)), 10 ** 6))
+            except ValueError:
+                pass
+    method = 'sample' if '[sample]' in ob.name else 'round'
+    from mbi import Domain, Factor, GraphicalModel, CliqueVector
+    dom = Domain(['a'], [4])
+    p = np.array([0.5, 0.3, 0.2, 0.0])
+    model = GraphicalModel(dom, [('a',)], total=float(rows))
+    with np.errstate(divide='ignore'):
+        model.potentials = CliqueVector({('a',): Factor(dom, np.log(p))})
+    model.marginals = model.belief_propagation(model.potentials)
+    np.random.seed(11)
+    try:
+        data = model.synthetic_data(rows=rows, method=method)
+    except Exception as e:
+        return dict(reproduced=True, inputs=dict(rows=rows, method=method, probabilities=p.tolist()), raised='%s: %s' % (type(e).__name__, e))
+    col = np.asarray(data.df['a'].values)
+    counts = np.bincount(col, minlength=4)[:4]
+    bad_rows = len(col) != rows
+    bad_zero = counts[3] != 0
+    bad_round = method == 'round' and bool(np.any(np.abs(counts - p * rows) >= 1 - 1e-9))
+    return dict(reproduced=bool(bad_rows or bad_zero or bad_round), inputs=dict(rows=rows, method=method, probabilities=p.tolist(), numpy_seed=11),
+                generated_rows=int(len(col)), counts=counts.tolist(), expected_counts=(p * rows).tolist())
